@@ -54,6 +54,7 @@ fn gen_case(r: &mut Prng) -> Case {
         let nst = 1 + r.usize(4);
         let mut stmts = {
             let mut g = Gen::new(r, &mut case, knobs, 0);
+        g.assign_names = NAMES.iter().map(|s| s.to_string()).collect();
             (0..nst)
                 .map(|_| {
                     g.nodes = 0;
@@ -79,6 +80,23 @@ fn gen_case(r: &mut Prng) -> Case {
         let ctx = case.slots[0].clone();
         pool.push((Prog::Stmts(stmts), ctx));
     }
+    // programs that differ ONLY in the amount of whitespace inside a string literal
+    for i in 0..pool.len() {
+        if let Prog::Stmts(s) = &pool[i].0 {
+            if s.iter().any(|e| e.render().contains("a b") || e.render().contains("John Smith")) && r.chance(2, 3) {
+                let wide: Vec<Expr> = s.iter().map(|e| e.map_strings(&|t: &str| t.replace(' ', "  "))).collect();
+                let mut stmts = wide;
+                // make the difference observable: compare against the narrow spelling
+                stmts.push(bin("==", lit_s("a  b"), lit_s("a b")));
+                let ctx = pool[i].1.clone();
+                let mut narrow = s.clone();
+                narrow.push(bin("==", lit_s("a b"), lit_s("a b")));
+                pool.push((Prog::Stmts(narrow), ctx.clone()));
+                pool.push((Prog::Stmts(stmts), ctx));
+                break;
+            }
+        }
+    }
     case.slots.clear();
     // shared ASTs: parsed once by the main task, executed by several threads
     let nshared = r.usize(3);
@@ -86,12 +104,36 @@ fn gen_case(r: &mut Prng) -> Case {
         let (p, _) = r.pick(&pool).clone();
         case.shared.push(p);
     }
-    let nthreads = 1 + r.usize(3);
+    let long_history = r.chance(1, 8);
+    if long_history {
+        // a long history on one thread, most of it failing deep inside nested expressions
+        case.tag = "C16-long".into();
+        let mut deep_fail = bin("+", rf("x"), lit_b(true));
+        for i in 0..(2 + r.usize(8)) {
+            deep_fail = match i % 3 {
+                0 => bin("+", lit_i(1), deep_fail),
+                1 => bin("*", deep_fail, lit_i(2)),
+                _ => call("max", vec![deep_fail, lit_i(1)]),
+            };
+        }
+        let mut deep_ok = bin("+", rf("x"), lit_i(1));
+        for i in 0..(2 + r.usize(8)) {
+            deep_ok = match i % 3 {
+                0 => bin("+", lit_i(1), deep_ok),
+                1 => bin("*", deep_ok, lit_i(2)),
+                _ => call("max", vec![deep_ok, lit_i(1)]),
+            };
+        }
+        let ctx = CtxSpec { vars: vec![("x".into(), Val::int(2))], funcs: vec![] };
+        pool.push((Prog::one(deep_fail), ctx.clone()));
+        pool.push((Prog::one(deep_ok), ctx));
+    }
+    let nthreads = if long_history { 1 } else { 1 + r.usize(3) };
     for _ in 0..nthreads {
-        let nops = 1 + r.usize(4);
+        let nops = if long_history { 60 + r.usize(200) } else { 1 + r.usize(4) };
         let mut ops = vec![];
         for _ in 0..nops {
-            let (prog, ctx) = r.pick(&pool).clone();
+            let (prog, ctx) = if long_history && r.chance(2, 3) { pool[pool.len() - 2 + r.usize(2)].clone() } else { r.pick(&pool).clone() };
             // every operation gets its own context; sometimes one that differs from the program's usual one
             let ctx = if r.chance(1, 4) { r.pick(&pool).1.clone() } else { ctx };
             ops.push(match r.below(8) {
@@ -202,7 +244,8 @@ impl Prop for C16 {
             level: "exploration",
             rule: "case = registrations (before the threads start) + a pool of 3..6 seeded programs that reuse the same variable and function names, assign, \
                    fail midway or are textually close + 1..3 simulated threads x 1..4 operations {parse, execute, parse-then-exec, exec the same AST n times \
-                   on equal fresh contexts, exec an AST shared between threads}, each on its own context + a probe set after the join; 1-thread cases run \
+                   on equal fresh contexts, exec an AST shared between threads}, each on its own context + a probe set after the join; every eighth case is one long single-thread history of 60..260 operations, two thirds \
+                   of them deeply nested evaluations that fail or succeed at depth; 1-thread cases run \
                    under the single possible schedule, multi-thread cases under a seeded portfolio (PCT / sticky / random). Every operation's result and final \
                    context are compared with the same operation alone in a fresh simulated process. evaluations = simulated executions; \
                    distinct_nontrivial = distinct (case, schedule) pairs with at least two evaluating operations of which one assigns or fails",
@@ -211,7 +254,7 @@ impl Prop for C16 {
                 "context functions in these programs return constants (a handler with its own state would legitimately couple evaluations)",
             ],
             fault_kinds: &["first_use_race", "preempt_in_call", "fresh_process"],
-            probes: &["shared_ast_executed_by_two_threads", "program_fails_midway", "same_program_twice_in_history", "textually_close_programs"],
+            probes: &["long_failing_history", "shared_ast_executed_by_two_threads", "program_fails_midway", "same_program_twice_in_history", "textually_close_programs"],
         }
     }
 
@@ -262,6 +305,9 @@ impl Prop for C16 {
             rt.probe("program_fails_midway");
         }
         let evals: usize = case.threads.iter().map(|t| t.len()).sum();
+        if case.tag == "C16-long" {
+            rt.probe("long_failing_history");
+        }
         for j in 0..nsched {
             let spec = crate::props::c13::schedule_for(&mut sr, j, decisions);
             let out = rt.sim(&case, &spec);
